@@ -23,9 +23,13 @@ def run(ctx: Ctx, chk) -> None:
     chk.run_rule(c03.state1, ctx)
     chk.run_rule(copies1, ctx)
     chk.run_rule(gate1, ctx)
+    chk.run_rule(gate_esc, ctx)
     chk.run_rule(learn1, ctx)
     chk.run_rule(who_version, ctx)
     chk.run_rule(report_total, ctx)
+    # the type gate is looked up in the active protocol for every message: a handler class that remembers names or
+    # handlers (a memo shared by all versions and gateways) answers from what another protocol accepted
+    chk.run_rule(tables.handler_state_rule, ctx)
 
 
 def vtuple(s: str):
@@ -668,3 +672,76 @@ def _is_version_store(st: ast.stmt) -> bool:
         if isinstance(v, ast.Call) and norm(v.func).rsplit(".", 1)[-1] in ("get_protocol", "AwesomeVersion"):
             return True
     return False
+
+
+def _catches(ctx: Ctx, f, handler: ast.ExceptHandler, exc_fq: str) -> bool:
+    """The except clause catches exc_fq (itself, a base class of it, or everything)."""
+    if handler.type is None:
+        return True
+    eea = ctx.eea()
+    elts = handler.type.elts if isinstance(handler.type, ast.Tuple) else [handler.type]
+    for x in elts:
+        d = ctx.prog.resolve_expr(f.module, x) if isinstance(x, (ast.Name, ast.Attribute)) else None
+        if d is None:
+            return True  # not resolvable: assume it may catch
+        full = d.obj.fq if d.kind == "class" else d.obj if d.kind == "external" else None
+        if full is None or eea.issub(exc_fq, full):
+            return True
+    return False
+
+
+def _always_reraises(handler: ast.ExceptHandler) -> bool:
+    """Every way through the handler body ends in a bare `raise` / `raise <the caught name>` (statement level; an
+    if/else both of whose branches do counts)."""
+
+    def ends(stmts) -> bool:
+        if not stmts:
+            return False
+        last = stmts[-1]
+        if isinstance(last, ast.Raise):
+            return last.exc is None or (isinstance(last.exc, ast.Name) and last.exc.id == handler.name) or last.cause is not None or isinstance(last.exc, ast.Call)
+        if isinstance(last, ast.If):
+            return ends(last.body) and ends(last.orelse)
+        if isinstance(last, (ast.With, ast.AsyncWith)):
+            return ends(last.body)
+        if isinstance(last, ast.Try):
+            return ends(last.finalbody) or (ends(last.body) and all(ends(h.body) for h in last.handlers))
+        return False
+
+    return ends(handler.body)
+
+
+def gate_esc(ctx: Ctx, chk) -> None:
+    rule = "GATE-ESC"
+    chk.rule(rule, "a refusal reaches the caller: on the way from the type gate to Gateway.listen (the internal / stream handlers, their decorator wrappers, the dispatch helper and listen itself) no `except` clause that can catch UnsupportedMessageError lets the handling go on without raising - a refused type is never accepted after all, whatever the gateway's state (for example while no version has been reported)")
+    UNS = "aiomysensors.exceptions.UnsupportedMessageError"
+    cells = tables.handler_cells(ctx)
+    funcs: list = []
+    for V in ctx.versions:
+        for kind in ("internal", "stream"):
+            top = cells[V].get(("cmd", kind))
+            if top is None:
+                continue
+            for f in tables.chain_defs(ctx, top, V):
+                if f not in funcs:
+                    funcs.append(f)
+    funcs.append(ctx.func("aiomysensors.gateway.Gateway.listen"))
+    n = 0
+    for f in funcs:
+        fi = ctx.inl(f, lambda h: not h.name.startswith("handle_"))
+        for h in [x for x in ctx.own_nodes(fi) if isinstance(x, ast.ExceptHandler)]:
+            tr = ctx.prog.parents.get(h)
+            # only handlers around code that can run the gate: the try body contains a call (the wrapped function, the
+            # dispatch, a handler) - a try around a pure conversion cannot see the refusal
+            if not isinstance(tr, ast.Try) or not any(isinstance(x, ast.Await) for b in tr.body for x in ast.walk(b)):
+                continue
+            if not _catches(ctx, fi, h, UNS):
+                continue
+            n += 1
+            chk.instance(rule)
+            key = f"{f.fq}::except {norm(h.type) if h.type is not None else ''}"
+            if _always_reraises(h):
+                chk.ok(rule, key, "the clause ends in a raise on every path", ctx.loc(fi, h), sample=n <= 2)
+            else:
+                chk.refute(rule, key, f"`except {norm(h.type) if h.type is not None else ''}` in {f.qualname} can catch the refusal of an unsupported type and complete without raising: a type that does not exist in the active protocol is then accepted (yielded as handled) instead of refused", ctx.loc(fi, h))
+    chk.notes[f"{rule}:handlers"] = n
